@@ -278,11 +278,65 @@ def rule_r4(ctx) -> List[R.Inst]:
     return insts
 
 
+def rule_r5(ctx) -> List[R.Inst]:
+    """integer bit tests on sound columns vs. the dtype those columns can have after a stack write-back"""
+    M = ctx.M
+    rid = "C18.R5"
+    fn = _fn(ctx)
+    file = M.mods[fn.mod].rel
+    # (fact 1) declared-int columns that some list of an osu chart lacks: pd.concat fills them with NaN -> float64
+    slots = M.map_slots(OSUMAP)
+    colsets = {s: set(M.list_columns(lc)) for s, lc in slots.items()}
+    note_item = M.item_class_of_list(slots["hits"])
+    fields = M.item_fields(note_item)
+    prone = sorted(c for c, (dt, _) in fields.items() if str(dt).startswith("int") and any(c not in cs for cs in colsets.values()))
+    # (fact 2) does the stack write-back restore the lists' dtypes?
+    upd = M.fn("reamber.base.Map.Map.Stacker._update")
+    restores = any(isinstance(n, ast.Call) and call_name(n) == "astype" for n in ast.walk(upd.node))
+    insts = []
+    casted = set()
+    for n in walk_no_nested(fn.node):
+        if isinstance(n, ast.Assign):
+            t = unparse(n.targets[0]).replace('"', "'")
+            v = unparse(n.value).replace('"', "'")
+            for c in prone:
+                if t.endswith(f"['{c}']") and f"['{c}']" in v and ".astype(int" in v.replace(" ", ""):
+                    casted.add(c)
+                if isinstance(n.value, ast.Call) and call_name(n.value) == "astype" and f"'{c}'" in v:
+                    casted.add(c)
+    k = 0
+    for n in walk_no_nested(fn.node):
+        if isinstance(n, ast.BinOp) and isinstance(n.op, (ast.BitAnd, ast.BitOr, ast.RShift, ast.LShift)):
+            for side in (n.left, n.right):
+                if isinstance(side, ast.Subscript) and isinstance(side.slice, ast.Constant) and side.slice.value in prone:
+                    c = side.slice.value
+                    key = f"bit-test:{c}@{k}"
+                    k += 1
+                    if restores or c in casted:
+                        insts.append(R.ok(rid, key, file, n.lineno,
+                                          idiom="column cast to int before the bit test" if c in casted else "write-back restores dtypes"))
+                    else:
+                        insts.append(R.viol(rid, key, file, n.lineno,
+                                            f"'{unparse(n)}' needs an integer column, but '{c}' is float64 in any chart that went through a "
+                                            f"stack write-back (rate, stack assignment): the stacked frame is a concat in which lists without "
+                                            f"'{c}' contribute NaN, and Stacker._update writes the upcast column back. hitsound_copy of a "
+                                            f"rate-changed chart raises TypeError", construct=f"bit test on {c} without int cast"))
+                elif isinstance(side, ast.Call) and call_name(side) == "astype" and any(
+                        isinstance(x, ast.Constant) and x.value in prone for x in ast.walk(side)):
+                    c = [x.value for x in ast.walk(side) if isinstance(x, ast.Constant) and x.value in prone][0]
+                    insts.append(R.ok(rid, f"bit-test:{c}@{k}", file, n.lineno, idiom="astype(int) at the bit test"))
+                    k += 1
+    if not insts:
+        insts.append(R.undec(rid, "bit-tests", file, fn.node.lineno, "no bit test on a sound column found"))
+    return insts
+
+
 SPECS = [
     RuleSpec("C18.R1", rule_r1, 3, "A3", "both inputs untouched; result rooted in a deep copy"),
     RuleSpec("C18.R2", rule_r2, 5, "A2", "result frame = target's notes; only sound columns stored; rows kept; unique labels; split back"),
     RuleSpec("C18.R3", rule_r3, 3, "A8", "every named sample reaches exactly one sink on every path, with no early exit"),
     RuleSpec("C18.R4", rule_r4, 5, "A2", "sound columns of the result are cleared before slotting"),
+    RuleSpec("C18.R5", rule_r5, 3, "A2", "bit tests on sound columns act on integer data for every history of the chart"),
 ]
 
 META = dict(
